@@ -163,7 +163,7 @@ impl UWorld {
             }
             PoolError::Closed => {
                 if !self.close_begun {
-                    self.violate(&["C12"], "closed-without-close", "get returned Closed on a pool that was never closed".into());
+                    self.violate(&["C05", "C12"], "closed-without-close", "get returned Closed on a pool that was never closed".into());
                 }
             }
             PoolError::NoRuntimeSpecified => self.violate(&["C12"], "unexpected-no-runtime", "get without timeout returned NoRuntimeSpecified".into()),
